@@ -21,6 +21,7 @@ pub fn parse_line(line: &str) -> Option<grep::GrepLine> {
                     code.truncate(code.len() - 1);
                 }
             }
+            let code_len = code.len();
             Some(grep::GrepLine {
                 grep_type: crate::config::GrepType::Ripgrep,
                 line_type: ripgrep_line._type,
@@ -32,7 +33,9 @@ pub fn parse_line(line: &str) -> Option<grep::GrepLine> {
                         .data
                         .submatches
                         .iter()
-                        .map(|m| (m.start, m.end))
+                        // (a match may reach into the line terminator, which is not shown)
+                        .map(|m| (m.start.min(code_len), m.end.min(code_len)))
+                        .filter(|(start, end)| start < end)
                         .collect(),
                 ),
             })
